@@ -253,3 +253,107 @@ class AddBackreference(Contract):
 
     def frame_ok(self, I, inp, obj, name):
         return False
+
+
+@register
+class CollectionFromDicts(Contract):
+    """SigmaCollection.from_dicts: every document goes to the loader of ITS kind (a `correlation` key: correlation rule; a `filter` key:
+    filter; otherwise a detection rule merged with the current global document), with the caller's collect_errors and source; `global`
+    / `reset` / `repeat` actions as documented; an unknown action is a SigmaCollectionError (collected in collecting mode); the
+    collection is built from the loaded objects IN DOCUMENT ORDER, with the errors of every document and with the caller's
+    collect_filters / resolve_references"""
+    id = "C09.SigmaCollection.from_dicts"
+    target = "sigma.collection:SigmaCollection.from_dicts"
+    props = ("C09", "C07", "C11")
+    cases = tuple((seq, col) for seq in (("rule", "corr", "filter"), ("filter", "rule"), ("global", "rule", "reset", "rule"), ("rule", "repeat"), ("rule", "bogus", "corr"), ()) for col in (False, True))
+
+    def setup(self, E):
+        E._c09_trace = []
+
+        def loader(kind):
+            def f(I, so, a, k):
+                o = SObj("Loaded", {"kind": kind, "doc": a[0], "errors": [SObj("Err", {"of": kind, "n": len(E._c09_trace)})]})
+                E._c09_trace.append((kind, list(a), dict(k), o))
+                return o
+            return f
+        E.summaries["sigma.rule.rule:SigmaRule.from_dict"] = loader("rule")
+        E.summaries["sigma.correlations:SigmaCorrelationRule.from_dict"] = loader("corr")
+        E.summaries["sigma.filters:SigmaFilter.from_dict"] = loader("filter")
+        E.summaries["sigma.collection:deep_dict_update"] = lambda I, so, a, k: SObj("Merged", {"base": a[0], "update": a[1]})
+        E._c09_made = []
+
+        def hook(I, cinfo, args, kwargs):
+            from pyvc.interp import UNBOUND
+            if cinfo.name == "SigmaCollection":
+                E._c09_made.append((list(args), dict(kwargs)))
+                return SObj("NewCollection", {})
+            return UNBOUND
+        E.instantiate_hook = hook
+
+    def args(self, I, case):
+        seq, col = case
+        del I.E._c09_trace[:]
+        del I.E._c09_made[:]
+        docs = []
+        for i, kind in enumerate(seq):
+            d = {"title": f"doc{i}"}
+            if kind == "corr":
+                d["correlation"] = {}
+            elif kind == "filter":
+                d["filter"] = {}
+            elif kind in ("global", "reset", "repeat", "bogus"):
+                d["action"] = kind
+            docs.append(d)
+        src = SObj("Location", {})
+        cf, rr = I.fresh("collect_filters", "bool"), I.fresh("resolve_references", "bool")
+        return {"self": ClassRef(I.E.index.lookup("sigma.collection:SigmaCollection")), "args": [docs, col, src, cf, rr], "docs": docs, "src": src, "cf": cf, "rr": rr, "case": case}
+
+    def post(self, I, inp, r):
+        seq, col = inp["case"]
+        c = I.ctx
+        c.require("bogus" not in seq or col, "an unknown action is an error unless errors are collected")
+        tr, made = I.E._c09_trace, I.E._c09_made
+        want_kinds = [k for k in seq if k in ("rule", "corr", "filter")] + ([] if "repeat" not in seq else [])
+        kinds = [t[0] for t in tr]
+        exp = []
+        for k in seq:
+            if k in ("rule", "corr", "filter"):
+                exp.append(k)
+            elif k == "repeat":
+                exp.append("rule")
+        c.require(kinds == exp, f"each document is loaded by the loader of its kind, in document order ({exp})")
+        c.require(all(len(t[1]) == 3 and t[1][1] is col and t[1][2] is inp["src"] and not t[2] for t in tr), "every loader gets the caller's collect_errors and source")
+        ok = len(made) == 1 and not made[0][0]
+        c.require(ok, "one collection is built")
+        if not ok:
+            return
+        k = made[0][1]
+        rules = I.force(k.get("init_rules"))
+        c.require(isinstance(rules, list) and len(rules) == len(tr) and all(a is t[3] for a, t in zip(rules, tr)), "the collection holds the loaded objects in document order")
+        errs = I.force(k.get("errors"))
+        want_errs = []
+        ti = 0
+        for kind in seq:
+            if kind in ("rule", "corr", "filter", "repeat"):
+                want_errs.append(tr[ti][3].fields["errors"][0])
+                ti += 1
+            elif kind == "bogus":
+                want_errs.append("collection-error")
+        got_ok = isinstance(errs, list) and len(errs) == len(want_errs) and all((w == "collection-error" and isinstance(e, SObj) and getattr(e.cls, "name", None) == "SigmaCollectionError") or e is w for e, w in zip(errs, want_errs))
+        c.require(got_ok, "the errors of every document, in document order (an unknown action as SigmaCollectionError at its position)")
+        c.require(k.get("collect_filters") is inp["cf"] and k.get("resolve_references") is inp["rr"], "collect_filters / resolve_references as given by the caller")
+        # global documents: rules after `global` are merged with it, rules after `reset` are not
+        if seq == ("global", "rule", "reset", "rule"):
+            d1, d2 = tr[0][1][0], tr[1][1][0]
+            c.require(isinstance(d1, SObj) and d1.cls == "Merged" and d1.fields["base"] is inp["docs"][1] and d1.fields["update"] is inp["docs"][0], "a rule after `global` is merged with the global document")
+            c.require(isinstance(d2, SObj) and d2.cls == "Merged" and d2.fields["base"] is inp["docs"][3] and d2.fields["update"] == {}, "a rule after `reset` is merged with nothing")
+        if seq == ("rule", "repeat"):
+            d2 = tr[1][1][0]
+            c.require(isinstance(d2, SObj) and d2.cls == "Merged" and d2.fields["base"] is inp["docs"][0] and d2.fields["update"] is inp["docs"][1], "`repeat` loads the previous rule document updated with this one")
+
+    def raises(self, I, inp, exc):
+        seq, col = inp["case"]
+        I.ctx.require("bogus" in seq and not col and exc_is(I, exc, "SigmaCollectionError") and I.E._c09_made == [], f"SigmaCollectionError for an unknown action in strict mode only (got {exc_name(exc)})")
+
+    def frame_ok(self, I, inp, obj, name):
+        return isinstance(obj, dict) or False
